@@ -197,4 +197,149 @@ theorem parseStmt_own {data : Bytes} (fuel : Nat) (i : Input) (x : Expr) (i' : I
     rw [recOf_of_not_eolc hne, List.append_nil] at hD1
     exact parseStmtLoop_own fuel i1 i.token.pos i.token.endPos [i.token.text] x i' D hr1 hg1 hD1 hb2 hb1 h
 
+/-! ### the statement list -/
+
+/-- the pending comment block of `parseFileLoop`: no end-of-line comment, starts between the statements read so
+    far and the pending token -/
+def CbOK (cb : Option CommentBlock) (mid hi : Nat) : Prop :=
+  ∀ c, cb = some c → c.comments.suffix = [] ∧ mid ≤ c.start.byte ∧ c.start.byte ≤ hi
+
+theorem cbOK_none (mid hi : Nat) : CbOK none mid hi := by intro c hc; cases hc
+
+/-- pushing the pending comment block as a statement -/
+theorem stmtsOwnH_push_cb {sr : List Expr} {C : List Comment} {mid hi hi' : Nat} (h : StmtsOwnH sr C mid) (c : CommentBlock)
+    (hcb : CbOK (some c) mid hi) (hh : hi ≤ hi') : StmtsOwnH (.commentBlock c :: sr) C hi' := by
+  obtain ⟨h1, h2, h3⟩ := hcb c rfl
+  have := stmtsOwnH_cons h (.commentBlock c) [] (fun _ => stmtOwn_commentBlock c h1 hi' (by omega)) h2
+  simpa using this
+
+theorem parseFileLoop_own {data : Bytes} : ∀ (fuel : Nat) (i : Input) (stmtsRev : List Expr) (cb : Option CommentBlock)
+    (out : List Expr) (i' : Input) (C : List Comment) (mid : Nat),
+    Reach data i → G i → i.token.kind ≠ .eolComment → Done i C → StmtsOwnH stmtsRev C mid → mid ≤ i.token.pos.byte →
+    CbOK cb mid i.token.pos.byte →
+    parseFileLoop fuel i stmtsRev cb = .ok (out, i') →
+    ∃ hi, StmtsOwnH out.reverse i'.commentsRev.reverse hi := by
+  intro fuel
+  induction fuel with
+  | zero => intro i stmtsRev cb out i' C mid _ _ _ _ _ _ _ h; simp [parseFileLoop] at h
+  | succ n ih =>
+    intro i stmtsRev cb out i' C mid hr hg hne hD hown hmid hcb h
+    unfold parseFileLoop at h
+    split at h
+    · -- blank line
+      rename_i hk
+      have hk : i.token.kind = .punct 10 := hk
+      cases hl : lex i with
+      | error err => simp [hl, bind, Except.bind] at h
+      | ok v =>
+        obtain ⟨tok, i1⟩ := v
+        simp only [hl, bind, Except.bind] at h
+        obtain ⟨_, hr1, hg1, hdone, hb1, hb2, hnext⟩ := lex_facts hr hg hl
+        have hD1 := hdone _ hD
+        rw [recOf_punct hk, List.append_nil] at hD1
+        have hne1 := hnext (Or.inl hk)
+        split at h
+        · rename_i c
+          exact ih i1 _ none out i' C i1.token.pos.byte hr1 hg1 hne1 hD1
+            (stmtsOwnH_push_cb hown c hcb (by omega)) (Nat.le_refl _) (cbOK_none _ _) h
+        · exact ih i1 _ none out i' C mid hr1 hg1 hne1 hD1 hown (by omega) (cbOK_none _ _) h
+    · -- whole-line comment
+      rename_i hk
+      have hk : i.token.kind = .comment := hk
+      cases hl : lex i with
+      | error err => simp [hl, bind, Except.bind] at h
+      | ok v =>
+        obtain ⟨tok, i1⟩ := v
+        simp only [hl, bind, Except.bind] at h
+        obtain ⟨htok, hr1, hg1, hdone, hb1, hb2, hnext⟩ := lex_facts hr hg hl
+        subst htok
+        have hD1 := hdone _ hD
+        rw [recOf_of_not_eolc (by rw [hk]; simp), List.append_nil] at hD1
+        have hne1 := hnext (Or.inr (Or.inr (Or.inl hk)))
+        refine ih i1 _ _ out i' C mid hr1 hg1 hne1 hD1 hown (by omega) ?_ h
+        intro c hc
+        simp only [Option.some.injEq] at hc
+        subst hc
+        cases cb with
+        | none => exact ⟨rfl, hmid, by show i.token.pos.byte ≤ _; omega⟩
+        | some c0 =>
+          obtain ⟨h1, h2, h3⟩ := hcb c0 rfl
+          exact ⟨h1, h2, by show c0.start.byte ≤ _; omega⟩
+    · -- end of input
+      rename_i hk
+      have hk : i.token.kind = .eof := hk
+      have hC : i.commentsRev.reverse = C := by
+        have := hD
+        unfold Done at this
+        rw [recOf_of_not_eolc (by rw [hk]; simp), List.append_nil] at this
+        exact this
+      split at h
+      · rename_i c
+        simp only [Except.ok.injEq, Prod.mk.injEq] at h
+        obtain ⟨rfl, rfl⟩ := h
+        refine ⟨i.token.pos.byte, ?_⟩
+        rw [List.reverse_reverse, hC]
+        exact stmtsOwnH_push_cb hown c hcb (Nat.le_refl _)
+      · simp only [Except.ok.injEq, Prod.mk.injEq] at h
+        obtain ⟨rfl, rfl⟩ := h
+        refine ⟨mid, ?_⟩
+        rw [List.reverse_reverse, hC]
+        exact hown
+    · -- a statement
+      cases hp : parseStmt (n + 1) i with
+      | error err => simp [hp, bind, Except.bind] at h
+      | ok v =>
+        obtain ⟨s, i1⟩ := v
+        simp only [hp, bind, Except.bind] at h
+        obtain ⟨hr1, hg1, hne1, Cs, hD1, hs⟩ := parseStmt_own (n + 1) i s i1 C hr hg hne hD hp
+        split at h
+        · rename_i c
+          exact ih i1 _ none out i' (C ++ Cs) i1.token.pos.byte hr1 hg1 hne1 hD1
+            (stmtsOwnH_cons hown _ Cs (hs.setBefore _) hmid) (Nat.le_refl _) (cbOK_none _ _) h
+        · exact ih i1 _ none out i' (C ++ Cs) i1.token.pos.byte hr1 hg1 hne1 hD1
+            (stmtsOwnH_cons hown s Cs hs hmid) (Nat.le_refl _) (cbOK_none _ _) h
+
+/-- ★ the walk of `assignComments` over the statement list of `parseFile`, if all its lines are one-line lines:
+    every recorded comment is used up, and every node gets at most one (a comment block none) -/
+theorem parseFile_own {data : Bytes} {stmts : List Expr} {i : Input} (h : parseFile data = .ok (stmts, i))
+    (hone : ∀ s ∈ stmts, OneLineStmt s) :
+    ∃ ss', postStmtsRev stmts.reverse i.commentsRev.reverse.reverse = (ss', []) ∧ ∀ s ∈ ss', CountStmt s := by
+  unfold parseFile at h
+  cases hr : readToken (newInput data) with
+  | error err => simp [hr, bind, Except.bind] at h
+  | ok i0 =>
+    simp only [hr, bind, Except.bind] at h
+    obtain ⟨hg0, hne0⟩ := G.init hr
+    have hD0 : Done i0 [] := by
+      unfold Done
+      rw [readToken_comments_rec _ _ hr]
+      simp [newInput]
+    obtain ⟨hi, hown⟩ := parseFileLoop_own _ i0 [] none stmts i [] 0 (Reach.start hr) hg0 hne0 hD0 (stmtsOwnH_nil 0)
+      (Nat.zero_le _) (cbOK_none _ _) h
+    exact (hown (fun s hs => hone s (by simpa using hs))).1
+
+/-- ★ `EolCount` for every accepted input whose lines start and end on the same source line -/
+theorem parse_eolCount_of_oneLine {name x : Bytes} {t : FileSyntax} (h : parse name x = .ok t)
+    (hone : ∀ stmts i, parseFile x = .ok (stmts, i) → ∀ s ∈ stmts, OneLineStmt s) : EolCount t := by
+  unfold parse at h
+  cases hp : parseFile x with
+  | error e => simp [hp, bind, Except.bind] at h
+  | ok v =>
+    obtain ⟨stmts, i⟩ := v
+    simp only [hp, bind, Except.bind, Except.ok.injEq] at h
+    obtain ⟨_, hsfx⟩ := ModfileFmtEmits.parseFile_wf' x stmts i hp
+    obtain ⟨ss', hpost, hcount⟩ := parseFile_own hp (hone stmts i hp)
+    have hfl : (i.commentsRev.reverse.filter (fun c => !c.suffix)) = [] := by
+      rw [List.filter_eq_nil_iff]
+      intro c hc
+      simp [hsfx c (by simpa using hc)]
+    have hfs : (i.commentsRev.reverse.filter (fun c => c.suffix)) = i.commentsRev.reverse := by
+      rw [List.filter_eq_self]
+      intro c hc
+      exact hsfx c (by simpa using hc)
+    unfold assignComments at h
+    simp only [hfl, hfs, assignBefore_nil, preStmts_nil, hpost] at h
+    subst h
+    exact ⟨by simp, fun s hs => hcount s (by simpa using hs)⟩
+
 end ModVerif.Proofs.ModfileSrc
